@@ -25,6 +25,8 @@ const c14DirectDoc = `{"openapi":"3.0.3","info":{"title":"t","version":"1"},"ser
 "paths":{
  "/accounts":{"post":{"requestBody":{"required":true,"content":{"application/json":{"schema":{"type":"object","required":["name","password"],"properties":{"name":{"type":"string"},"password":{"type":"string","writeOnly":true}}}}}},
   "responses":{"201":{"description":"created","content":{"application/json":{"schema":{"type":"object","required":["id","name"],"properties":{"id":{"type":"integer","readOnly":true},"name":{"type":"string"}}}}}}}}},
+ "/things":{"parameters":[{"name":"version","in":"query","required":true,"schema":{"type":"integer","minimum":1}}],
+  "get":{"parameters":[{"name":"version","in":"header","schema":{"type":"integer"}}],"responses":{"200":{"description":"ok","content":{"application/json":{"schema":{"type":"object"}}}}}}},
  "/notes":{"post":{"security":[{"key":[]},{}],"requestBody":{"content":{"application/json":{"schema":{"type":"object","required":["x"],"properties":{"x":{"type":"integer"}}}}}},
   "responses":{"200":{"description":"ok"}}}},
  "/items":{"get":{"parameters":[{"name":"limit","in":"query","required":true,"schema":{"type":"integer","maximum":10}}],
@@ -73,6 +75,7 @@ func c14DirectCases(meta *Meta) {
 		post("/v1/accounts", `{"name":"n","password":"p"}`, 201, `{"id":1,"name":"n"}`, true, 201), post("/v1/accounts", `{"name":"n"}`, 201, `{"id":1,"name":"n"}`, false, 400),
 		post("/v1/accounts", `{"name":"n","password":"p"}`, 201, `{"name":"n"}`, true, 500),
 		// optional authentication: the first alternative's callback reads the body and refuses, the empty requirement lets the request in - with its body
+		get("/v1/things?version=3", 200, `{}`, true, true, 200), get("/v1/things?version=0", 200, `{}`, true, false, 400), get("/v1/things?version=abc", 200, `{}`, true, false, 400), get("/v1/things", 200, `{}`, true, false, 400),
 		post("/v1/notes", `{"x":1}`, 200, ``, true, 200), post("/v1/notes", `{"y":1}`, 200, ``, false, 400), post("/v1/notes", `{"x":`, 200, ``, false, 400))
 	for _, rname := range []string{"legacy", "gorillamux"} {
 		var router routers.Router
